@@ -161,6 +161,28 @@ def explicit_id_specs(max_n: int, *, min_n: int = 1, alphabet=("a", "b")) -> Ite
                         yield sp
 
 
+def shared_id_specs(max_n: int, *, min_n: int = 2, labels=("a", "b")) -> Iterator[Spec]:
+    """Two nodes with *different* data (labels a and b) filed under one explicit data_id 'sid' (never
+    siblings): data_id is a key, not the name.  The remaining nodes are labelled c."""
+    for n in range(min_n, max_n + 1):
+        for pv in forests(n):
+            for i, j in itertools.combinations(range(n), 2):
+                if pv[i] == pv[j]:
+                    continue
+                for la, lb in ((labels[0], labels[1]), (labels[1], labels[0])):
+                    nodes = []
+                    for k in range(n):
+                        if k == i:
+                            nodes.append((pv[k], la, "sid", None))
+                        elif k == j:
+                            nodes.append((pv[k], lb, "sid", None))
+                        else:
+                            nodes.append((pv[k], "c", None, None))
+                    sp = Spec(tuple(nodes))
+                    if sibling_ids_unique(sp):
+                        yield sp
+
+
 def effective_id(rec) -> Any:
     _, lab, did, _ = rec
     return ("L", lab) if did is None else ("I", did)
